@@ -63,11 +63,89 @@ func distinctItems(r *rand.Rand, n int) []item {
 	return out
 }
 
+// ---- items with chosen hash bits ------------------------------------------
+// The hash of a 32-bit item is a bijection of 32-bit words (multiplications by an
+// odd constant and xor-shifts); preimage inverts it so that a history can reach
+// the register patterns random items practically never produce: the all-zero
+// remainder (maximal rank), remainders 1, 2^k, 2^k-1, first and last register,
+// registers at the 6-per-word boundaries.  The hash that is LOGGED is still what
+// the package's exported hash function returns for the item; an item whose
+// hash is not the wanted pattern (should the hash function change) is dropped.
+const murmurM = 0x5bd1e995
+
+func inv32(a uint32) uint32 { // multiplicative inverse of an odd a modulo 2^32
+	x := a
+	for i := 0; i < 5; i++ {
+		x *= 2 - a*x
+	}
+	return x
+}
+
+func unXorShift(y uint32, s uint) uint32 {
+	x := y
+	for i := 0; i < 4; i++ {
+		x = y ^ (x >> s)
+	}
+	return x
+}
+
+func preimage(target uint32) (uint32, bool) {
+	mi := inv32(murmurM)
+	h := unXorShift(target, 15) * mi
+	h = unXorShift(h, 13) * mi
+	k := unXorShift(h*mi, 24)
+	v := k * mi
+	return v, hll.MurmurHash(v) == target
+}
+
+func craftedItems(r *rand.Rand, p int, n int) []item {
+	m := 1 << uint(p)
+	rb := uint(32 - p) // bits of the remainder
+	idxs := []int{0, 1, 5, 6, 7, 11, 12, m - 1, m - 2, m / 2, r.Intn(m), r.Intn(m)}
+	seen := map[uint32]bool{}
+	var out []item
+	for tries := 0; len(out) < n && tries < 50*n; tries++ {
+		idx := idxs[r.Intn(len(idxs))] % m
+		var rest uint32
+		switch r.Intn(8) {
+		case 0:
+			rest = 0 // nothing but zeros after the index bits: rank 32-p+1
+		case 1:
+			rest = 1
+		case 2:
+			rest = 1<<rb - 1 // all ones: rank 1
+		case 3:
+			rest = 1 << (rb - 1) // rank 1, only the first bit
+		case 4:
+			rest = 1 << uint(r.Intn(int(rb))) // a single bit: every rank
+		case 5:
+			rest = 1<<uint(r.Intn(int(rb))+1) - 1
+		case 6:
+			k := uint(r.Intn(int(rb)))
+			rest = 1<<k | r.Uint32()&(1<<k-1) // chosen rank, random tail
+		default:
+			rest = r.Uint32() & (1<<rb - 1)
+		}
+		target := uint32(idx)<<rb | rest
+		if seen[target] {
+			continue
+		}
+		seen[target] = true
+		if v, ok := preimage(target); ok {
+			out = append(out, item{uint64(v), r.Intn(2) == 0})
+		}
+	}
+	return out
+}
+
 type hist struct {
 	t    *core.Trace
 	ctr  map[int]*hll.HyperLogLog
 	next int
 	dead bool
+	// noEst: the items were crafted from chosen hash bit patterns; the error bound
+	// of the estimate is a statement about hashed (spread) items and says nothing here
+	noEst bool
 }
 
 func (h *hist) panicEv(what string, msg string) {
@@ -121,7 +199,7 @@ func satEst(e uint64) int {
 }
 
 func (h *hist) est(id int) {
-	if h.dead {
+	if h.dead || h.noEst {
 		return
 	}
 	var e uint64
@@ -279,8 +357,14 @@ func coreHistory(c *core.Ctx, t *core.Trace, gen string, cas int, p int, capN in
 	t.Reset(gen, cas, core.Ev{"p": p})
 	h := &hist{t: t, ctr: map[int]*hll.HyperLogLog{}, next: 1}
 	m := 1 << uint(p)
-	n := pickSize(r, m, capN)
-	items := distinctItems(r, n)
+	var items []item
+	if gen == "edge" {
+		items = craftedItems(r, p, capN)
+		h.noEst = true
+	} else {
+		items = distinctItems(r, pickSize(r, m, capN))
+	}
+	n := len(items)
 
 	a := h.newCtr(p)
 	h.offerAll(a, items, r, 30)
@@ -364,7 +448,7 @@ func coreHistory(c *core.Ctx, t *core.Trace, gen string, cas int, p int, capN in
 	}
 	h.addAll(cp, b)
 	h.bytes(cp, p)
-	c.Count(fmt.Sprintf("core:%d:%d:%d", p, n, k), n >= 2)
+	c.Count(fmt.Sprintf("%s:%d:%d:%d", gen, p, n, k), n >= 2)
 	if cas < 2 {
 		c.Sample(map[string]interface{}{"gen": gen, "case": cas, "p": p, "distinct_items": n, "parts": k})
 	}
@@ -427,7 +511,7 @@ func bulkHistory(c *core.Ctx, t *core.Trace, gen string, cas int, p int, dense b
 }
 
 func Run(c *core.Ctx) error {
-	c.Rule = "per precision 4..16: a random set of distinct 32/64-bit items offered to real counters in two orders with duplicates, split into 1..4 overlapping parts and merged in two associations, serialised and rebuilt, every Offer boolean / GetBytes / Cardinality recorded; plus estimate checkpoints of counters fed up to 5m distinct items; a case is non-trivial if it involves at least 2 distinct items; distinct by (precision, set size, split) resp. (precision, n, estimate)"
+	c.Rule = "per precision 4..16: a random set of distinct 32/64-bit items offered to real counters in two orders with duplicates, split into 1..4 overlapping parts and merged in two associations, serialised and rebuilt, every Offer boolean / GetBytes / Cardinality recorded; the same over items crafted (by inverting the 32-bit item hash) to have chosen index and remainder bits: all-zero remainder, single bits, first/last register, word boundaries; plus estimate checkpoints of counters fed up to 5m distinct items; a case is non-trivial if it involves at least 2 distinct items; distinct by (precision, set size, split) resp. (precision, n, estimate)"
 	t := c.Trace("c14_hll", "Trace_HLL")
 	if c.WantGen("core") {
 		per := c.Pick(5, 40)
@@ -440,6 +524,19 @@ func Run(c *core.Ctx) error {
 						capN = 5 * (1 << uint(p)) // reach the raw-estimate range with logged offers
 					}
 					coreHistory(c, t, "core", cas, p, capN)
+				}
+				cas++
+			}
+		}
+	}
+	// gen "edge": the same history over items crafted to have chosen hash bits
+	if c.WantGen("edge") {
+		per := c.Pick(2, 12)
+		cas := 0
+		for rep := 0; rep < per; rep++ {
+			for p := 4; p <= 16; p++ {
+				if c.Want("edge", cas) {
+					coreHistory(c, t, "edge", cas, p, 12+8*rep%40)
 				}
 				cas++
 			}
